@@ -101,6 +101,12 @@ class World:
             obj.d[k] = v
         out = self.OS.CodeBuilder()
         flags = M.Flags(cfg.ctx)
+        # other expressions of the same grammar whose module-level precompile hooks ran earlier
+        # (they share the builder's state: e.g. the cache of compiled regex matchers)
+        for scls, sargs, skw in getattr(cfg, 'siblings', ()):
+            sib = self.new(scls, *sargs, **skw)
+            sib.d.setdefault('program_id', program_id + 100)
+            self.call(sib, 'precompile', out)
         # module-level precompile hooks (regex matchers)
         self.call(obj, 'precompile', out)
         pre = len(out._root)
@@ -241,6 +247,12 @@ def _enumerate(world, K, thorough):
                 for sk in (False, True):
                     yield Config(K, [pat], dict(ignore_case=ic), {}, post=dict(skip_ignored=sk),
                                  label=f'{K}:pattern={pat!r},ignore_case={ic},skip_ignored={sk}')
+                # the same pattern text occurs elsewhere in the grammar with the other case flag
+                # (a regex literal and a case-insensitive string literal both become Regex)
+                c = Config(K, [pat], dict(ignore_case=ic), {}, post=dict(skip_ignored=False),
+                           label=f'{K}:pattern={pat!r},ignore_case={ic},after-sibling-with-ignore_case={not ic}')
+                c.siblings = [('Regex', [pat], dict(ignore_case=not ic))]
+                yield c
     elif K == 'Byte':
         for sk in (False, True):
             yield Config(K, [0x41], {}, {}, post=dict(skip_ignored=sk),
